@@ -347,7 +347,10 @@ def rule_decomp(ctx: Ctx) -> RuleReport:
                     loops = [l for l in walk_own(fi.node) if isinstance(l, (ast.For, ast.While)) and any(x is c for x in ast.walk(l))]
                     shrinking = any(isinstance(x, ast.BinOp) and isinstance(x.op, ast.Sub) for x in ast.walk(ml)) or any(
                         isinstance(a, ast.AugAssign) and isinstance(a.op, ast.Sub) and isinstance(a.target, ast.Name) and a.target.id in {n.id for n in ast.walk(ml) if isinstance(n, ast.Name)} for l in loops for a in ast.walk(l))
-                    if loops and not shrinking:
+                    unl = _unlimited_on_value(ctx, fi, ml)
+                    if unl is not None:
+                        rep.fail(Finding("C12-DECOMP", fi.module.rel, fi.qual, "no limit when the declared size is 0: " + unl[0], f"the output limit `{norm(ml)}` becomes 'unlimited' under `{unl[1]}`, a test of the declared size itself, not of its presence: a folder that declares 0 bytes (7 KB archive, 48 MiB stream) is inflated without any limit", line=c.lineno))
+                    elif loops and not shrinking:
                         rep.fail(Finding("C12-DECOMP", fi.module.rel, fi.qual, "bounded call in an unbounded loop: " + anorm(c, fi.node), f"`{short(c, 60)}` is limited per call but sits in a loop whose limit `{norm(ml)}` never shrinks: the loop drains the decoder and the total output is again controlled by the stream, not by the declared size", line=c.lineno))
                     else:
                         rep.ok({"site": f"{fi.qual}: {short(c, 70)}", "max_length": norm(ml)})
@@ -364,6 +367,40 @@ def rule_decomp(ctx: Ctx) -> RuleReport:
     if n < 2:
         raise AnalysisError(f"C12-DECOMP: only {n} decompress() call sites found (floor 2: LZMA and LZMA2 decoders of the 7z reader)")
     return rep
+
+
+def _unlimited_on_value(ctx, fi, ml, depth=0):
+    """The limit expression is (derived from) a conditional that yields the 'no limit' sentinel (-1 / None) under a test that reads an
+    *element* of the declared sizes (`sizes[-1]` falsy) instead of only their presence. Returns (construct, test text) or None."""
+    if depth > 3:
+        return None
+
+    def sentinel(e):
+        return (isinstance(e, ast.Constant) and e.value is None) or (isinstance(e, ast.UnaryOp) and isinstance(e.op, ast.USub) and isinstance(e.operand, ast.Constant) and e.operand.value == 1)
+
+    def reads_element(test):
+        return any(isinstance(x, ast.Subscript) for x in ast.walk(test))
+
+    exprs = [ml]
+    for x in ast.walk(ml):
+        if isinstance(x, ast.Name):
+            exprs += [a.value for a in walk_own(fi.node) if isinstance(a, ast.Assign) and any(isinstance(t, ast.Name) and t.id == x.id for t in a.targets)]
+    for e in exprs:
+        for ie in [y for y in ast.walk(e) if isinstance(y, ast.IfExp)]:
+            if (sentinel(ie.orelse) or sentinel(ie.body)) and reads_element(ie.test):
+                return (anorm(ie, fi.node), norm(ie.test))
+        for c in [y for y in ast.walk(e) if isinstance(y, ast.Call)]:
+            for g in resolve_call(ctx.p, fi, c).funcs:
+                for r in [r for r in walk_own(g.node) if isinstance(r, ast.Return) and r.value is not None and sentinel(r.value)]:
+                    conds, opaque, _ = path_conditions(g.node, r)
+                    for cnd in [str(x) for x in conds] + list(opaque):
+                        try:
+                            t = ast.parse(cnd, mode="eval").body
+                        except SyntaxError:
+                            continue
+                        if reads_element(t):
+                            return (f"{g.name}: return {norm(r.value)} when {anorm(t, g.node)}", cnd)
+    return None
 
 
 XML_PARSE = {"fromstring", "parse", "XML", "iterparse", "XMLParser", "XMLPullParser", "fromstringlist", "parseString"}
